@@ -45,7 +45,7 @@ pub fn process_indels<IntT: for<'a> UInt<'a>>(
     let mut nb_indels = 0;
 
     // consider indels 1 by one
-    for vec_variants in final_indels.values() {
+    for (_, vec_variants) in final_indels.iter() {
         // get taxonomic sampling for each variant
         let bitset_vec: Vec<BitSet> = vec_variants
             .iter()
@@ -139,12 +139,14 @@ pub fn process_indels<IntT: for<'a> UInt<'a>>(
 
 // dereplicate indel groups: choose shortest between 'forward' and 'reverse-complement';
 // this is equivalent to indel realigning in read-alignment (useful in repeats)
+#[allow(clippy::type_complexity)]
 fn dereplicate_indels<IntT: for<'a> UInt<'a>>(
     indel_groups: VariantGroups<IntT>,
     k_graph: usize,
-) -> (VariantGroups<IntT>, HashSet<IntT>) {
+) -> (Vec<((IntT, IntT), Vec<VariantInfo>)>, HashSet<IntT>) {
     let mut entries_indels: HashSet<IntT> = HashSet::new();
-    let mut final_indels: VariantGroups<IntT> = HashMap::new();
+    // kept in sorted order, so that the output does not depend on hash order
+    let mut final_indels: Vec<((IntT, IntT), Vec<VariantInfo>)> = Vec::new();
 
     // create a vector of keys and their corresponding total sequence length, and sort it in increasing order
     // we use the IntT value of the entry k-mer as tie breaker to get a stable list
@@ -163,6 +165,7 @@ fn dereplicate_indels<IntT: for<'a> UInt<'a>>(
     sorted_extremities.sort_by(|a, b| {
         a.1.cmp(&b.1) // sort by sum of sequence lengths
             .then_with(|| a.0 .0.cmp(&b.0 .0)) // sort by the first IntT value of the key when there's a tie
+            .then_with(|| a.0 .1.cmp(&b.0 .1)) // then by the second
     });
 
     for (combined_ext, _) in sorted_extremities {
@@ -176,7 +179,7 @@ fn dereplicate_indels<IntT: for<'a> UInt<'a>>(
             entries_indels.insert(combined_ext.1);
             entries_indels.insert(rc_2);
             // save indel group
-            final_indels.insert(combined_ext, vec_variants.clone());
+            final_indels.push((combined_ext, vec_variants.clone()));
         }
     }
 
